@@ -69,7 +69,13 @@ WIDE_PROBES = {
     "wide_tuple": q([], "lambda e: (" + ", ".join(f"e.Jets('A').Count() + {i}" for i in range(13)) + ")"),
     "wide_dict": q([], "lambda e: {" + ", ".join(f"'col{i}': e.Jets('A').Count() * {i + 1}" for i in range(12)) + "}"),
 }
-PROBES_ALL = dict(PROBES, **WIDE_PROBES)
+# probes on the CMS backends (their default method types live in the same process-global registry the ATLAS executor resets)
+XB_PROBES = {"cms_aod_defaults": "cms_aod", "cms_miniaod_defaults": "cms_miniaod"}
+XB_QUERIES = {
+    "cms_aod_defaults": q([], "lambda e: e.Muons('m').Select(lambda m: m.globalTrack().pt())"),
+    "cms_miniaod_defaults": q([], "lambda e: e.Muons('m').Select(lambda m: m.pt())"),
+}
+PROBES_ALL = dict(PROBES, **WIDE_PROBES, **XB_QUERIES)
 
 
 @dataclass
@@ -105,15 +111,19 @@ def run_case(case):
     history, probe, probe_mode, state_only = case
     shared = None
     trace = []
+    # probes of another backend: the executor of that backend is created BEFORE the history (of ATLAS operations) runs
+    early = {b: make_executor(b) for b in ("cms_aod", "cms_miniaod")} if probe in XB_PROBES and probe_mode == "early" else {}
 
-    def one(src, mode, expect=None, apply_only=False):
+    def one(src, mode, expect=None, apply_only=False, backend="atlas"):
         nonlocal shared
-        if mode == "shared":
+        if mode == "early":
+            exe = early[backend]
+        elif mode == "shared":
             if shared is None:
                 shared = make_executor("atlas")
             exe = shared
         else:
-            exe = make_executor("atlas")
+            exe = make_executor(backend)
         exe.add_extended_md({"docker": DockerSpec()})
         d = Path(tempfile.mkdtemp(prefix="c07"))
         try:
@@ -145,7 +155,7 @@ def run_case(case):
                        "extended_md_found": {k: len(v) for k, v in shared._found_extended_md.items() if v},
                        "method_names": sorted(shared._method_names)})
         return {"state": st, "trace": trace}
-    r = one(PROBES_ALL[probe], probe_mode)
+    r = one(PROBES_ALL[probe], probe_mode, backend=XB_PROBES.get(probe, "atlas"))
     if r[0] == "ok":
         return {"outcome": "ok", "files": canonical(r[1]), "raw": r[1], "docker": r[2], "tree": r[3], "trace": trace}
     return {"outcome": "raised", "exc": r[1], "msg": r[2], "trace": trace}
@@ -232,6 +242,11 @@ def main():
         cases.append(([], p, "new", False))
         for h in long_hist:
             for pm in modes:
+                cases.append((h, p, pm, False))
+    for p in XB_PROBES:
+        cases.append(([], p, "new", False))
+        for h in [[("ok_plain", "new")], [("ok_mti", "shared")], [("fail_plain", "new")], [("ok_plain", "new"), ("ok_coll", "new")]]:
+            for pm in ("early", "new"):
                 cases.append((h, p, pm, False))
     state_cases = [(h, None, None, True) for h in [[]] + hist1]
     t0 = time.time()
